@@ -68,4 +68,7 @@ Section NPNum.
   Definition nn_ravel (A : mat) : vec := concat A.
   Definition nn_einsum_ij_ik_jk (d : nat) (X Y : mat) : mat :=
     fold_right (fun xy acc => madd (outer (fst xy) (snd xy)) acc) (mzero d d) (combine X Y).
+  (* (X.T * y): row i of X scaled by y_i (kept untransposed);  A.T.dot(B) *)
+  Definition nn_scale_rows (y : vec) (X : mat) : mat := map2 vscale y X.
+  Definition nn_dot_tm (A B : mat) : mat := mmulg (transp A) B.
 End NPNum.
